@@ -381,6 +381,28 @@ def r9(ctx):
               got=[render(x[2])[:100] for x in add], key="attached")
 
 
+def r10(ctx):
+    """strategy hooks that may send requests (on_trading_disabled / on_disconnect) run exactly when their trigger occurs and their
+    output is what the engine reports - a hook that runs on other events sends requests that the audit never shows"""
+    b = ctx.fibody(name="update_from_trading_state_update", self_adt=ENG, trait="")
+    tr = "TradingStateUpdateAudit::transitioned_to_disabled(TradingState::update(self.state.trading, update))"
+    hook = "OnTradingDisabled::on_trading_disabled(self)"
+    tab = common.case_table(b)
+    calls = [(render(tm), common.canon_guard(b.guard(bi))) for bi, t, tm in b.real_calls() if mir.short(tm[1]).endswith("on_trading_disabled")]
+    ctx.check("Engine::update_from_trading_state_update", tab == {"(%s)" % tr: ["Option::Some{0: %s}" % hook], "(!%s)" % tr: ["Option::None{}"]} and
+              calls == [(hook, "(%s)" % tr)],
+              "the on-trading-disabled hook runs exactly when the update transitioned trading to Disabled, and its output is returned (reported)",
+              got={"table": tab, "hook calls": calls}, key="hook-iff-transition")
+    for fn, hookname, upd in (("update_from_account_stream", "on_disconnect", "update_from_account_reconnecting"),
+                              ("update_from_market_stream", "on_disconnect", "update_from_market_reconnecting")):
+        fb = ctx.fibody(name=fn, self_adt=ENG, trait="")
+        hs = [(bi, tm) for bi, t, tm in fb.real_calls() if mir.short(tm[1]).endswith("::" + hookname)]
+        ok = len(hs) == 1 and common.canon_guard(fb.guard(hs[0][0])) == "(event is Reconnecting)"
+        used = ok and any(hs[0][1] in list(mir.subterms(t_)) for g, t_, bi_ in fb.expanded_cases(0))
+        ctx.check("Engine::" + fn, ok and used, "the on-disconnect hook runs exactly on a Reconnecting event and its output is returned (reported)",
+                  got=[(render(h[1])[:100], common.canon_guard(fb.guard(h[0]))) for h in hs], key="hook-iff-disconnect")
+
+
 RULES = [
     ("R9", "reporting: is_empty covers every part of the output; non-empty outputs are attached to the audit", r9),
     ("R8", "in-flight recorders: a sent open is tracked OpenInFlight, a sent cancel marks the tracked order CancelInFlight", r8),
@@ -391,4 +413,5 @@ RULES = [
     ("R5", "trading gate: single generation site under TradingState::Enabled read after the update; commands ungated", r5),
     ("R6", "who may deliver on an execution link", r6),
     ("R7", "a missing link is an error", r7),
+    ("R10", "request-sending strategy hooks run exactly on their trigger and their output is reported", r10),
 ]
